@@ -68,15 +68,15 @@ let glob = SbGetScope SbScopeGlobal
 let form_ast (form : String.t) (m : sb_expr) : sb_expr option =
   let wrap e = SbArray [ e; m ] in        (* [ e, m ] *)
   match form with
-  | "set_local" -> Some (SbSet (false, var "x", m))
-  | "set_global" -> Some (SbSet (false, SbIndexer (glob, lit_s "SbG"), m))
-  | "set_objattr" -> Some (SbSet (false, SbIndexer (SbIndexer (var "host", lit_s "vars"), lit_s "os"), m))
-  | "set_shared_elem" -> Some (SbSet (false, SbIndexer (var "SbDict", lit_s "a"), m))
-  | "set_add" -> Some (SbSet (true, var "SbArr", m))
-  | "var" -> Some (SbSet (false, SbIndexer (SbGetScope SbScopeLocal, lit_s "x"), m))
+  | "set_local" -> Some (SbSet (false, false, var "x", m))
+  | "set_global" -> Some (SbSet (false, false, SbIndexer (glob, lit_s "SbG"), m))
+  | "set_objattr" -> Some (SbSet (false, false, SbIndexer (SbIndexer (var "host", lit_s "vars"), lit_s "os"), m))
+  | "set_shared_elem" -> Some (SbSet (false, false, SbIndexer (var "SbDict", lit_s "a"), m))
+  | "set_add" -> Some (SbSet (false, true, var "SbArr", m))
+  | "var" -> Some (sb_parse_var false (var "x") m)
   | "const" -> Some (SbSetConst (nm "SbC", m))
-  | "namespace" -> Some (SbSet (false, SbIndexer (glob, lit_s "SbN"), SbNamespace m))
-  | "function" -> Some (SbSet (false, SbIndexer (glob, lit_s "sbf"), SbFunction ([], [ m ], lnum)))
+  | "namespace" -> Some (SbSet (false, false, SbIndexer (glob, lit_s "SbN"), SbNamespace m))
+  | "function" -> Some (SbSet (false, false, SbIndexer (glob, lit_s "sbf"), SbFunction ([], [ m ], lnum)))
   | "apply" -> Some (SbApply m)
   | "object" | "template" -> Some (SbObject (var "Host", m))
   | "import" -> Some (SbImport (m, SbLiteral SbLEmpty))
@@ -84,7 +84,7 @@ let form_ast (form : String.t) (m : sb_expr) : sb_expr option =
   | "library" -> Some (SbLibrary m)
   | "for" -> Some (SbFor (nm "x", m, SbLiteral SbLEmpty))
   | "while" -> Some (SbWhile (m, SbBreak))
-  | "dict_literal" -> Some (SbDict (false, [ SbSet (false, SbIndexer (SbGetScope SbScopeThis, lit_s "a"), m) ]))
+  | "dict_literal" -> Some (sb_parse_dict [ SbSet (false, false, var "a", m) ])     (* the parser: BindToScope(.., ScopeThis) *)
   (* forms that are not refused: the marker is reached / the plain form evaluates *)
   | "try" -> Some (SbTryExcept (SbThrow (lit_s "x"), m))
   | "using" -> Some m
@@ -113,6 +113,137 @@ let form_ast (form : String.t) (m : sb_expr) : sb_expr option =
   | "read_attr" -> Some (wrap (SbIndexer (SbIndexer (var "host", lit_s "vars"), lit_s "os")))
   | _ -> None
 
+(* ---- writers x positions x left-hand sides (kind=wpos): the syntax tree the parser builds for the probe text, from its
+   description tokens.  Dictionary literals go through the extracted [sb_parse_dict] (BindToScope(.., ScopeThis)). ---- *)
+let idx e k = SbIndexer (e, lit_s k)
+let call f args = SbFunctionCall (f, args)
+let this_ = SbGetScope SbScopeThis
+let btrue = SbLiteral (SbLBool true) and bfalse = SbLiteral (SbLBool false)
+let host_call = call (var "get_object") [ var "Host"; lit_s "sbh" ]
+let hosts_call = call (var "get_objects") [ var "Host" ]
+let scope es = SbDict (true, es)
+
+let lhs_ast = function
+  | "ident_new" -> Some (var "sbx") | "ident_global" -> Some (var "SbNum") | "strkey" -> Some (lit_s "sbk")
+  | "this" -> Some (idx this_ "sbx") | "locals" -> Some (idx (SbGetScope SbScopeLocal) "sbx")
+  | "globals_new" -> Some (idx glob "SbW") | "globals_num" -> Some (idx glob "SbNum")
+  | "call_attr" -> Some (idx host_call "display_name") | "call_vars" -> Some (idx (idx host_call "vars") "num")
+  | "call_idx_vars" -> Some (idx (idx (SbIndexer (hosts_call, lnum)) "vars") "num")
+  | "call_idx_new" -> Some (idx (idx (SbIndexer (hosts_call, lnum)) "vars") "added")
+  | "live_attr" -> Some (idx (idx (var "host") "vars") "num") | "live_dict" -> Some (idx (var "SbDict") "a")
+  | "live_arr" -> Some (SbIndexer (var "SbArr", lnum)) | "live_ns" -> Some (idx (var "SbNs") "x")
+  | "deref" -> Some (SbDeref (SbRef (idx glob "SbNum")))
+  | "deref_call" -> Some (SbDeref (SbRef (idx (idx host_call "vars") "num")))
+  | "nested_lhs" -> Some (idx (idx (idx glob "SbNest") "d") "z")
+  | "array_root" -> Some (idx (SbIndexer (SbArray [ idx (var "SbNest") "d" ], lnum)) "z")
+  | _ -> None
+
+let writer_ast w op lhs =
+  match w with
+  | "set" -> (match lhs_ast lhs with Some l -> Some (SbSet (false, op <> "set", l, lit_s "sbv")) | None -> None)
+  | "const" -> Some (SbSetConst (nm "SbWC", lnum))
+  | "var" -> Some (sb_parse_var false (var "sbv") lnum)
+  | "namespace" -> Some (SbSet (false, false, sb_bind_scope SbScopeGlobal (var "SbWN"), SbNamespace (scope [])))
+  | "function" -> Some (SbSet (false, false, idx this_ "sbwf", SbFunction ([], [], scope [])))
+  | "function_use" -> Some (SbSet (false, false, idx this_ "sbwf", SbFunction ([], [ lnum ], scope [])))
+  | "for" | "for_kv" -> Some (SbFor (nm "q", SbArray [ lnum ], scope []))
+  | "while" -> Some (SbWhile (bfalse, scope []))
+  | "apply" -> Some (SbApply (lit_s "sbwa"))
+  | "object" | "template" -> Some (SbObject (var "Host", lit_s "sbwo"))
+  | "include" | "include_recursive" | "include_zones" -> Some (SbInclude (lit_s "/nonexistent", SbLiteral SbLEmpty))
+  | "import" -> Some (SbImport (lit_s "sbtmpl", SbLiteral SbLEmpty))
+  | "library" -> Some (SbLibrary (lit_s "methods"))
+  | "using" -> Some (SbLiteral SbLEmpty)
+  | _ -> None
+
+let seta k v = SbSet (false, false, var k, v)
+let form_w form w =
+  match form with
+  | "stmt" -> Some w
+  | "dict" -> Some (sb_parse_dict [ w ])
+  | "dict_after" -> Some (sb_parse_dict [ seta "sba" lnum; w ])
+  | "dict_before" -> Some (sb_parse_dict [ w; seta "sbz" lnum ])
+  | "dict_nested" -> Some (sb_parse_dict [ seta "sba" (sb_parse_dict [ w ]) ])
+  | "dict_nested_arr" -> Some (sb_parse_dict [ seta "sba" (SbArray [ sb_parse_dict [ w ] ]) ])
+  | "dict3" -> Some (sb_parse_dict [ seta "sba" (sb_parse_dict [ seta "sbb" (sb_parse_dict [ w ]) ]) ])
+  | "if_true" -> Some (SbConditional (btrue, scope [ w ], None))
+  | "if_else" -> Some (SbConditional (bfalse, scope [ lnum ], Some (scope [ w ])))
+  | "else_if" -> Some (SbConditional (bfalse, scope [ lnum ], Some (SbConditional (btrue, scope [ w ], None))))
+  | "try_body" -> Some (SbTryExcept (scope [ w ], scope [ lnum ]))
+  | "try_except" -> Some (SbTryExcept (scope [ SbThrow (lit_s "x") ], scope [ w ]))
+  | "lambda_call" -> Some (call (SbFunction ([], [], scope [ w ])) [])
+  | "closure" | "function_body" -> Some (SbFunction ([], [], scope [ w ]))
+  | "lambda_map" -> Some (call (idx (SbArray [ lnum ]) "map") [ SbFunction ([ nm "x" ], [], scope [ w ]) ])
+  | "while_body" -> Some (SbWhile (btrue, scope [ w; SbBreak ]))
+  | "for_body" -> Some (SbFor (nm "q", SbArray [ lnum ], scope [ w ]))
+  | "namespace_body" -> Some (SbSet (false, false, idx glob "SbWNb", SbNamespace (scope [ w ])))
+  | _ -> None
+
+let ctx_w ctx r =
+  let pre p = String.length ctx > String.length p && String.sub ctx 0 (String.length p) = p in
+  let suf p = String.sub ctx (String.length p) (String.length ctx - String.length p) in
+  match ctx with
+  | "none" -> Some r
+  | "array_elem" -> Some (SbArray [ lnum; r ])
+  | "arg_len" -> Some (call (var "len") [ r ]) | "arg_json" -> Some (call (idx (var "Json") "encode") [ r ])
+  | "arg_typeof" -> Some (call (var "typeof") [ r ]) | "arg_keys" -> Some (call (var "keys") [ r ])
+  | "arg_match2" -> Some (call (var "match") [ lit_s "*"; r ]) | "arg_union2" -> Some (call (var "union") [ SbArray [ lnum ]; r ])
+  | "cond_if" -> Some (SbConditional (r, scope [ lnum ], None)) | "cond_ternary" -> Some (SbConditional (r, lnum, Some lnum))
+  | "ternary_then" -> Some (SbConditional (btrue, r, Some lnum)) | "ternary_else" -> Some (SbConditional (bfalse, lnum, Some r))
+  | "and_rhs" -> Some (SbLogicalAnd (btrue, r)) | "or_rhs" -> Some (SbLogicalOr (bfalse, r))
+  | "and_lhs" -> Some (SbLogicalAnd (r, btrue)) | "or_lhs" -> Some (SbLogicalOr (r, btrue))
+  | "not" -> Some (SbLogicalNegate r) | "eq" -> Some (SbBinary (SbEqual, r, lnum)) | "plus" -> Some (SbBinary (SbAdd, lnum, r))
+  | "in_lhs" -> Some (SbIn (r, SbArray [ lnum ])) | "in_rhs" -> Some (SbIn (lnum, r))
+  | "receiver_len" -> Some (call (idx r "len") []) | "receiver_keys" -> Some (call (idx r "keys") [])
+  | "receiver_contains" -> Some (call (idx r "contains") [ lit_s "a" ])
+  | "index" -> Some (SbIndexer (var "SbDict", r)) | "member_of" -> Some (idx r "a")
+  | "throw" -> Some (SbThrow r) | "use" -> Some (SbFunction ([], [ r ], scope [ lnum ]))
+  | "using" -> Some (SbVariable (nm "sbfoo", [ r ])) | "deref" -> Some (SbDeref r)
+  | "ctor" -> Some (call (var "String") [ r ]) | "call_arg_obj" -> Some (call (var "get_object") [ var "Host"; r ])
+  | "try" -> Some (SbTryExcept (scope [ r ], scope [ lnum ]))
+  | _ when pre "cb_" -> Some (call (idx (SbArray [ lnum; lnum ]) (suf "cb_")) [ r ])
+  | _ when pre "recv_" -> Some (call (idx (SbArray [ r ]) (suf "recv_")) [ var "bool" ])
+  | _ -> None
+
+(* the fixture of these probes.  shared heap: 0 globals, 1 SbArr, 2 SbDict, 3 the Host sbh, 4 its vars, 5 SbNs, 6 SbNest,
+   7 SbNest.d, 8 the Json namespace, 9 the console session's locals (shared between the requests of a session); local heap: 0 Self/Locals of the frame (binds `host` in filter mode), 1 the array
+   get_objects(Host) hands back.  [ret]: what the (pure, hence opaque) natives of the left-hand side return. *)
+let fixture_w (lhs : String.t) =
+  let sh k = nat_of_int k in
+  let o ty k = SbVObj (ty, SbShared (sh k)) in
+  let native g r = (nm g, SbVFun (SbNative (nm r))) in
+  let hostv = o ty_host 3 in
+  let globals =
+    [ (nm "SbArr", o ty_array 1); (nm "SbDict", o ty_dict 2); (nm "Host", SbVType ty_host); (nm "String", SbVType (nm "String"));
+      (nm "SbNum", SbVBool false); (nm "SbNs", o ty_ns 5); (nm "SbNest", o ty_dict 6); (nm "Json", o ty_ns 8);
+      native "get_object" "System#get_object"; native "get_objects" "System#get_objects"; native "len" "System#len";
+      native "typeof" "System#typeof"; native "keys" "System#keys"; native "match" "System#match"; native "union" "System#union";
+      native "bool" "System#bool" ] in
+  let ret = if lhs = "call_idx_vars" || lhs = "call_idx_new" then SbVObj (ty_array, SbLocal (sh 1)) else hostv in
+  { sbs_shared = [ globals; [ (N0, SbVBool false) ]; [ (nm "a", SbVBool false) ];
+                   [ (nm "display_name", SbVBool false); (nm "vars", o ty_dict 4) ]; [ (nm "num", SbVBool false) ];
+                   [ (nm "x", SbVBool false) ]; [ (nm "d", o ty_dict 7) ]; [ (nm "z", SbVBool false) ];
+                   [ (nm "encode", SbVFun (SbNative (nm "Json#encode"))) ]; [ (nm "sbsession", SbVBool false) ] ];
+    sbs_extern = []; sbs_local = [ [ (nm "host", hostv) ]; [ (N0, hostv) ] ];
+    sbs_calls = []; sbs_reads = []; sbs_choices = List.init 12 (fun _ -> { sbc_b = false; sbc_v = ret }) }
+
+(* ConsoleHandler::ExecuteScriptHelper: frame.Locals = frame.Self = the session's dictionary, which outlives the request *)
+let frame_of_w mode =
+  let fr = frame_of mode in
+  if mode = "console" then
+    let l = SbVObj (ty_dict, SbShared (nat_of_int 9)) in
+    { fr with sbfr_self = l; sbfr_locals = Some l }
+  else fr
+
+let wpos_model (a : args) : (sb_expr * sb_st) option =
+  let lhs = str a "lhs" "-" in
+  match writer_ast (str a "w" "") (str a "op" "set") lhs with
+  | None -> None
+  | Some w ->
+    (match form_w (str a "form" "") w with
+     | None -> None
+     | Some r -> (match ctx_w (str a "ctx" "none") r with Some e -> Some (e, fixture_w lhs) | None -> None))
+
 let hexs a k = hex_dec (str a k "-")
 let num_of a = num a "marker" 0 <> 0
 
@@ -121,6 +252,7 @@ let probe_model (a : args) : (sb_expr * sb_st) option =
   let mk = num_of a in
   let m = if mk then marker else lnum in
   match str a "kind" "" with
+  | "wpos" -> wpos_model a
   | "form" ->
     (match form_ast (str a "form" "") m with
      | Some e -> Some (e, fixture [] ty_dict [])
@@ -189,7 +321,7 @@ let op_sb_probe a =
   match probe_model a with
   | None -> emit (Printf.sprintf "sb_probe id=%s mode=%s MODEL-UNKNOWN-PROBE" id mode)
   | Some (e, s) ->
-    let fr = frame_of mode in
+    let fr = if str a "kind" "" = "wpos" then frame_of_w mode else frame_of mode in
     let (r, s') = sb_eval sb_cur_facts (nat_of_int 40) fr e s in
     let changed = (s'.sbs_shared <> s.sbs_shared) || (s'.sbs_extern <> s.sbs_extern) in
     (* the console handler serialises the returned object with all its fields: modelled here, outside the evaluator *)
@@ -237,6 +369,8 @@ let oracle_c19 script trace =
                 | 1 -> "changed" | 2 -> "hidden" | 3 -> "unsafe-call" | _ -> "crash" in
               let what = match str a "kind" "" with
                 | "form" -> "form:" ^ str a "form" ""
+                | "wpos" -> (if str a "w" "" = "set" then "set-" ^ str a "op" "" ^ "-" ^ str a "lhs" "" else str a "w" "")
+                            ^ "@" ^ str a "form" "" ^ (if str a "ctx" "none" = "none" then "" else "." ^ str a "ctx" "")
                 | "call" -> "call:" ^ hexs a "fn"
                 | "ctor" -> "ctor:" ^ hexs a "ty"
                 | "read" -> "read:" ^ hexs a "ty" ^ "." ^ hexs a "field"
